@@ -1674,6 +1674,7 @@ def _run(ctx, pool, scratch, quick, rng):
     ctx.assume("pixel centres of a TOAST tile lie inside the lat/lon hull of its corners (checked for every tile to depth 4 in both coordinate systems; excess reported as drift)")
     ctx.assume("footprint monitor domain: levels at which a tile spans >= %g image pixels (tile pixels at most 4x finer than image pixels, the regime "
                "_image_bounds is written for); a witness pixel must lie >= %.2f px inside the image; footprints keep (pixel size)*tan(latitude) <= 0.02 and an "
-               "enclosed pole >= 20 px from every edge, so that the bend of an edge between two 1-px samples is far below that tolerance" % (MIN_TILE_PX, TAU))
+               "enclosed pole >= 20 px from every edge, so that the bend of an edge between two 1-px samples is far below that tolerance; around an ENCLOSED pole "
+               "(2-D refinement, samples <= 1.4 px apart, bound short by < 1 px) the cap of two coarse cells is probed down to tiles of %g image px" % (MIN_TILE_PX, TAU, POLE_MIN_TILE_PX))
     ctx.assume("chunked sampling is compared with the real whole-map sampler bit for bit on every pixel (C07 states equality, no tolerance); only the comparison with the map pixel the harness itself computes from lon/lat skips pixel centres within 1e-6 cell of a cell boundary")
     ctx.assume("the compiled toasty._libtoasty is what runs (Cython absent: a .pyx edit cannot be exercised); _latlon_tile_filter / _image_bounds / _chunk_bounds are reached as private helpers for conformance only")
